@@ -13,6 +13,14 @@ EXPRESSION_PARTS = (
 ).split()
 
 
+# Parent nodes of a name in which an inlined expression has to be put in
+# parentheses: next to the operators above, a ternary, `*x`, the `in`/`if` part
+# of a comprehension and `**x` in a dict display only take operands that bind
+# tighter than an arbitrary expression.
+_INLINE_NEEDS_PARENTHESES = EXPRESSION_PARTS + \
+    'test star_expr comp_for sync_comp_for comp_if dictorsetmaker'.split()
+
+
 class ChangedFile:
     def __init__(self, inference_state, from_path, to_path,
                  module_node, node_to_str_map):
@@ -220,7 +228,7 @@ def inline(inference_state, names):
         path = name.get_root_context().py__file__()
         s = replace_code
         if rhs.type == 'testlist_star_expr' \
-                or tree_name.parent.type in EXPRESSION_PARTS \
+                or tree_name.parent.type in _INLINE_NEEDS_PARENTHESES \
                 or tree_name.parent.type == 'trailer' \
                 and tree_name.parent.get_next_sibling() is not None:
             s = '(' + replace_code + ')'
